@@ -29,6 +29,10 @@ OBJECTS = ["sig", "out", "inp", "var"]
 SITES = {
     "A": ("ca", "ca"), "B": ("cb", "cb"), "C": ("sc", "sc"), "D": ("sd", "sd"),
     "CA": ("sc", "sc.always"), "CE": ("sc", None), "I": (None, "inst1"), "J": (None, "inst2"),
+    # R: context declared with the core API cohdl.sequential_context (no implicit reset_pushed write)
+    "R": ("sr", "sr"),
+    # II: ONE instance whose two output ports are both connected to the object (two drivers)
+    "II": (None, "inst3.y1+inst3.y2"),
 }
 KINDS = ["w", "w0", "w1", "wdyn", "push", "r"]  # whole / bit 0 / bit 1 / run-time index / push / read
 PARTS = {"w": {0, 1}, "w0": {0}, "w1": {1}, "wdyn": {0, 1}, "push": {0, 1}}
@@ -37,7 +41,7 @@ PARTS = {"w": {0, 1}, "w0": {0}, "w1": {1}, "wdyn": {0, 1}, "push": {0, 1}}
 def accesses_for(obj):
     for site in SITES:
         for kind in KINDS:
-            if site in ("I", "J") and kind != "w":
+            if site in ("I", "J", "II") and kind != "w":
                 continue
             if site == "CE" and kind != "r":
                 continue
@@ -60,7 +64,8 @@ def expected_reject(obj, accs):
             ctxs.add(ctx)
         if kind != "r":
             for part in PARTS[kind]:
-                drivers.setdefault(part, set()).add(drv)
+                for d_ in drv.split("+"):
+                    drivers.setdefault(part, set()).add(d_)
     if obj == "inp" and drivers:
         return True, "input port is written"
     if obj in ("sig", "out"):
@@ -97,11 +102,13 @@ def stmt(obj_expr, kind, n, obj):
 
 def render(obj, accs):
     ox = {"sig": "x", "out": "self.xout", "inp": "self.xin", "var": "x", "tmp": "x"}[obj]
-    body = {"ca": [], "cb": [], "sc": [], "sd": [], "ck": [], "sc.always": []}
+    body = {"ca": [], "cb": [], "sc": [], "sd": [], "ck": [], "sc.always": [], "sr": []}
     inst = []
     for n, (site, kind) in enumerate(accs):
         if site in ("I", "J"):
             inst.append(f"        Sub(a=self.i[0], y={ox})")
+        elif site == "II":
+            inst.append(f"        Sub2(a=self.i[0], y1={ox}, y2={ox})")
         elif site == "CA":
             body["sc.always"].append(stmt(ox, kind, n, obj))
         elif site == "CE":
@@ -111,6 +118,9 @@ def render(obj, accs):
     L = ["from cohdl import std, Entity, Port, Bit, BitVector, Unsigned, Signal, Variable", "import cohdl", "",
          "class Sub(Entity):", "    a = Port.input(Bit)", "    y = Port.output(BitVector[2])", "    def architecture(self):",
          "        @std.concurrent", "        def logic():", "            self.y <<= self.a @ self.a", "",
+         "class Sub2(Entity):", "    a = Port.input(Bit)", "    y1 = Port.output(BitVector[2])", "    y2 = Port.output(BitVector[2])",
+         "    def architecture(self):", "        @std.concurrent", "        def logic():", "            self.y1 <<= self.a @ self.a",
+         "            self.y2 <<= self.a @ ~self.a", "",
          "class T(Entity):", "    clk = Port.input(Bit)", "    i = Port.input(BitVector[2])", "    k = Port.input(Unsigned[1])",
          "    xin = Port.input(BitVector[2])", "    xout = Port.output(BitVector[2], default='00')"]
     for n in range(len(accs)):
@@ -148,6 +158,12 @@ def render(obj, accs):
         L += ctx("@std.sequential(std.Clock(self.clk))", "sc", body["sc"], body["sc.always"])
     if body["sd"]:
         L += ctx("@std.sequential(std.Clock(self.clk))", "sd", body["sd"])
+    if body["sr"]:
+        raw = ctx("@cohdl.sequential_context", "sr", body["sr"])
+        # wrap the statements in an explicit clock-edge test
+        head = [l for l in raw if l.strip().startswith(("@", "def ", "nonlocal"))]
+        rest = [l for l in raw if l not in head]
+        L += head + ["            if cohdl.rising_edge(self.clk):"] + ["    " + l for l in rest]
     if body["ck"]:
         L += ["        @std.block", "        def blk():"]
         L += ["    " + l for l in ctx("@std.concurrent", "ck", body["ck"])]
@@ -221,7 +237,7 @@ def main(run: Run):
                 run.count("expected_reject")
             if st == "rejected":
                 continue
-            srcdrv = "+".join(sorted({SITES[s_][1] for s_, k_ in accs if k_ != "r" and SITES[s_][1]}))
+            srcdrv = "+".join(sorted({d_ for s_, k_ in accs if k_ != "r" and SITES[s_][1] for d_ in SITES[s_][1].split("+")}))
             always = "+".join(sorted({s_ for s_, k_ in accs if s_ in ("CA", "CE")}))
             if r["must"]:
                 run.violation(f"placement/{ident}/accepted<{srcdrv}>", f"{ident}: accepted although {r['reason']}",
@@ -242,7 +258,7 @@ def main(run: Run):
         evaluations=len(tasks),
         distinct_nontrivial=run.counters.get("accepted_conflict_free", 0) + run.counters.get("expected_reject", 0),
         exhaustive=True,
-        rule="all placements of 1-2 (thorough: 3 on a reduced kind set) accesses to one object of each kind over 8 site kinds x 6 access "
+        rule="all placements of 1-2 (thorough: 3 on a reduced kind set) accesses to one object of each kind over 10 site kinds x 6 access "
              "kinds; non-trivial = accepted and analysed, or expected to be rejected",
     )
 
